@@ -143,6 +143,7 @@ def run_property(prop, tier, seed):
     R, mods = load_registry()
     repo = Repo()
     eng = Engine(repo, R)
+    eng.frame_report = {}
     problems = R.check_attached(repo)
     if problems:
         for p in problems:
@@ -201,7 +202,12 @@ def run_property(prop, tier, seed):
     eng.obligations = obls
     for o in obls:
         s = status(o)
-        if s == 'failed':
+        if s == 'failed' and o.kind == 'frame':
+            # an undeclared modification makes the callers' proofs unsound, it is not by itself a violation of the
+            # property: undecided until the contract declares it (and the callers are re-verified against that)
+            o.raw = 'frame: ' + (o.note or '') + ' | ' + str(o.raw)[:300]
+            undecided.append(o)
+        elif s == 'failed':
             kf = match_finding(prop, o, findings)
             (known if kf else failed).append((o, kf))
         elif s == 'undecided':
@@ -280,6 +286,9 @@ def run_property(prop, tier, seed):
             'trivially_discharged_by_simplifier': trivial,
             'dropped_statements': eng.dropped,
             'unattached_loop_invariants': R.unattached_loops,
+            'frame': {'roots_checked_to_modify_only_what_their_contract_declares': len(eng.frame_report.get('checked', {})),
+                      'frame_obligations_needing_the_solver': sum(eng.frame_report.get('checked', {}).values()),
+                      'top_level_roots_without_frame_check': sorted(eng.frame_report.get('top_level_not_checked', []))},
             'racy_reads': sorted(f'{a}:{b}@{c}' for a, b, c in eng.racy_reads),
             'vacuity': {'covers': sum(1 for o in obls if o.kind == 'cover'),
                         'must_fail_twins': sum(1 for o in obls if o.kind == 'twin'),
